@@ -206,7 +206,7 @@ def run_property(prop: str, obs: list[Ob], *, tier: str, seed: int, level: str,
                  explanation: str, trusted_base: list[str], assumptions: list[str],
                  functions: dict, dropped: list[str] | None = None, min_obligations: int = 1,
                  not_attempted: list[str] | None = None, jobs: int | None = None,
-                 extra: dict | None = None) -> int:
+                 extra: dict | None = None, write_evidence: bool = True) -> int:
     """Discharge all obligations, write evidence, print verdict lines, return exit code."""
     global _OBS
     t0 = time.time()
@@ -239,7 +239,7 @@ def run_property(prop: str, obs: list[Ob], *, tier: str, seed: int, level: str,
     known_hits = []
     undecided = []
     os.makedirs(os.path.join(VERIF, "replay"), exist_ok=True)
-    for old in os.listdir(os.path.join(VERIF, "replay")):       # replay files of earlier runs of this property are stale
+    for old in (os.listdir(os.path.join(VERIF, "replay")) if write_evidence else []):       # replay files of earlier runs of this property are stale (kept in --replay mode)
         if old.startswith(prop + ".") and old.endswith(".json"):
             try:
                 os.remove(os.path.join(VERIF, "replay", old))
@@ -327,7 +327,7 @@ def run_property(prop: str, obs: list[Ob], *, tier: str, seed: int, level: str,
               assumptions=assumptions, wall_s=round(time.time() - t0, 3), violations=len(violations),
               exit_code=code, selfcheck_failures=selfcheck_fail)
     os.makedirs(os.path.join(VERIF, "evidence"), exist_ok=True)
-    with open(os.path.join(VERIF, "evidence", f"{prop}.json"), "w") as f:
+    with open(os.path.join(VERIF, "evidence", f"{prop}.json") if write_evidence else os.devnull, "w") as f:
         json.dump(jsonable(ev), f, indent=1)
 
     for l in lines:
